@@ -38,10 +38,13 @@ def run(model, rep, tier):
              'event sets shouldStop (every other selected test still runs)')
     tsrules.no_stop_without_flag(ctx, rep, 'C04.R9')
     r11_totals_line(ctx, rep)
+    r16_exception_values_classified_by_base(ctx, rep)
     r12_nullable_results(ctx, rep)
     r13_user_exceptions_not_hashed(ctx, rep)
     r14_no_user_text_as_format_string(ctx, rep)
     r15_integer_format_of_float(ctx, rep)
+    from . import robust
+    robust.asserts_have_no_effects(ctx, rep, 'C04.R20', 'C04')
     rep.units['cfg'] = ctx.cfg_stats
 
 
@@ -167,7 +170,10 @@ def r3_recorder(ctx, rep, R='C04.R3'):
     rep.rule(R, 'the failure recorder itself does not fail: it appends to errors on every path and '
              'uses a formatter method that only some formatters have only under a hasattr guard')
     fi = ctx.model.func('runner.handle_layer_failure')
-    g = ctx.cfg(fi)
+    # every call in it may raise (the formatter writes to a stream, the traceback formatter walks user
+    # objects): a handler in the recorder that swallows such an exception is a NORMAL exit as well
+    from sa.cfg import AnyCall
+    g = ctx.cfg(fi, oracle=AnyCall())
     ps = [a.arg for a in fi.node.args.args]
     app = nodes_calling(g, lambda c: isinstance(c.func, ast.Attribute) and c.func.attr == 'append'
                         and dotted(c.func.value) in ps)
@@ -995,3 +1001,38 @@ def r15_integer_format_of_float(ctx, rep, R='C04.R15'):
                       key='fmt-int-of-float:%s:%s' % (fi.qualname, name), func=fi.qualname, where=ctx.where(fi, node))
     if not n:
         rep.assume('%s: no integer-only format spec is applied to a plain name in an f-string / str.format' % R)
+
+
+def r16_exception_values_classified_by_base(ctx, rep, R='C04.R16'):
+    """'plus SystemExit inside tests': what a test raises is a BaseException, not necessarily an
+    Exception (SystemExit, KeyboardInterrupt, GeneratorExit, asyncio.CancelledError and their
+    subclasses).  Code on the reporting path that tells exception VALUES from other values
+    (separator strings of a chain, None, text already formatted) by ``isinstance(v, Exception)``
+    treats such an exception as "not an exception" -- the object itself ends up among the report
+    lines and the join / write that follows raises inside the result callback."""
+    rep.rule(R, 'an exception value is recognised as such whatever its class: no isinstance / issubclass '
+             'test in the package classifies a value by the class Exception (SystemExit and '
+             'KeyboardInterrupt raised by a test are BaseException only); BaseException, or a test for '
+             'the OTHER alternative (str, None), is used instead')
+    m = ctx.model
+    n = 0
+    for fi in m.all_functions():
+        if fi.module.name.startswith('tests'):
+            continue
+        for c in ast.walk(fi.node):
+            if not (isinstance(c, ast.Call) and dotted(c.func) in ('isinstance', 'issubclass') and len(c.args) == 2):
+                continue
+            t = c.args[1]
+            names = [dotted(e) for e in (t.elts if isinstance(t, ast.Tuple) else [t])]
+            if not any(x in ('Exception', 'BaseException', 'builtins.Exception') for x in names):
+                continue
+            n += 1
+            bad = any(x in ('Exception', 'builtins.Exception') for x in names) and 'BaseException' not in names
+            rep.check(not bad, R, '%s: %s' % (fi.qualname, norm(c)[:50]),
+                      '%s classifies a value by %s: SystemExit / KeyboardInterrupt raised by a test (or a '
+                      'layer) are not instances of Exception and take the branch meant for '
+                      'non-exceptions' % (fi.qualname, norm(c)[:60]),
+                      key='exc-class:%s:%s' % (fi.qualname, norm(c)[:50]), func=fi.qualname,
+                      where=ctx.where(fi, c))
+    rep.ok(R, '%d type tests against Exception / BaseException in the package; none classifies an '
+           'exception value by Exception' % n)
